@@ -550,12 +550,15 @@ def r09_13(chk):
         raise AnalysisError(f"{q}: loop over self.children not found")
     lp = loops[0]
     sets = [st for st in ast.walk(lp) if isinstance(st, ast.Assign) and isinstance(st.targets[0], ast.Name) and isinstance(st.value, ast.Attribute) and st.value.attr == "length"]
+    k = key(m, q, "removed length added after the children were scanned")
     if not sets:
-        raise AnalysisError(f"{q}: the removed length is not taken inside the loop")
+        # R09.6 reports what happens to the length in that case; nothing to order here
+        chk.ok("R09.13", k, m.loc(lp), "the dissolved edge's length is not held in a local inside the loop", nontrivial=False)
+        chk.floor("R09.13", 0, "")
+        return
     rl = sets[0].targets[0].id
     adds_in = [st for st in ast.walk(lp) if isinstance(st, ast.AugAssign) and isinstance(st.op, ast.Add) and any(isinstance(x, ast.Name) and x.id == rl for x in ast.walk(st.value))]
     adds_all = [st for st in walk_no_nested(fn) if isinstance(st, ast.AugAssign) and isinstance(st.op, ast.Add) and any(isinstance(x, ast.Name) and x.id == rl for x in ast.walk(st.value))]
-    k = key(m, q, "removed length added after the children were scanned")
     if adds_in:
         chk.violation("R09.13", k, m.loc(adds_in[0]), f"`{norm(adds_in[0])}` sits inside the loop over self.children in which `{rl}` is found: a kept child that precedes the dissolved node does not receive the length")
     else:
